@@ -111,8 +111,14 @@ impl<'r> G<'r> {
             self.rng.usize(12)
         };
         let mut s = format!("s{}", self.fresh);
+        // one string in five has multi-byte characters (byte length and char count differ)
+        let wide = self.rng.chance(1, 5);
         while s.len() < n {
-            s.push((b'a' + (s.len() % 26) as u8) as char);
+            if wide && s.len() % 3 == 0 {
+                s.push(['é', 'ß', '→', '語', '🦀'][s.len() / 3 % 5]);
+            } else {
+                s.push((b'a' + (s.len() % 26) as u8) as char);
+            }
         }
         Card::string_card(s)
     }
